@@ -8,6 +8,7 @@ func init() {
 	vndRegister("VerifC05BufferCodec", VerifC05BufferCodec)
 	vndRegister("VerifC05CommitCodec", VerifC05CommitCodec)
 	vndRegister("VerifC05Swap", VerifC05Swap)
+	vndRegister("VerifC05SwapDecoded", VerifC05SwapDecoded)
 }
 
 // VBuf is an in-memory io.Writer / io.Reader / io.ByteReader used by the harnesses.
@@ -142,24 +143,18 @@ func VerifC05CommitCodec() {
 	vndObserve("bytes", uint64(n))
 }
 
-// VerifC05Swap: after a first reader replaced merge deltas of one block by merged results, a
-// later reader sees, for every offset, the same sequence of operations with each such merge
-// turned into a put of the result.
-func VerifC05Swap() {
-	K := vndParam("K")
-	b := NewBuffer(8)
-	var ops [4]vOp
+// vSwapCheck performs a first pass over block c of b that replaces every merge by a symbolic
+// merged result (as a column's Apply does) and then asserts that a second, whole-buffer reader sees
+// for every offset the same sequence of operations with those merges turned into puts. ops[0:K]
+// are exactly the operations b holds, in order.
+func vSwapCheck(b *Buffer, c Chunk, ops *[4]vOp, K int, decoded bool) {
 	var exp [4]vOp
 	for i := 0; i < K; i++ {
-		ops[i] = vWriteOp(b, 1)
-		vndAssume(ops[i].op != Skip)
 		exp[i] = ops[i]
 	}
-	c := Chunk(vndU32("chunk"))
-
-	// first pass: what a column's Apply does for block c
 	idx := 0
 	reorder := false
+	grew := false
 	r := NewReader()
 	r.Range(b, c, func(r *Reader) {
 		for r.Next() {
@@ -186,6 +181,7 @@ func VerifC05Swap() {
 					n := vndChoice("rlen", 3)
 					v := vndBytes("rs", n)
 					if n != len(o.str) {
+						grew = true
 						// KF-merge-reorder: the result is appended at the end of the buffer; any later
 						// operation of this buffer on the same offset now precedes it
 						for j := idx + 1; j < K; j++ {
@@ -202,27 +198,56 @@ func VerifC05Swap() {
 		}
 	})
 	vndKnown("KF-merge-reorder", reorder)
+	// KF-decoded-swap-seek: Commit.ReadFrom does not restore the buffer's last offset, so a Put
+	// appended by SwapBytes to a DECODED buffer is delta-encoded from 0: block-wise readers (which
+	// restart at the block header) are right, a sequential Seek/Next reader sees a wrong offset
+	seq := vndChoice("secondpass", 2) == 0
+	vndKnown("KF-decoded-swap-seek", decoded && grew && seq)
 
-	// second pass over the whole buffer
+	// second pass: over the whole buffer sequentially, or block-wise like every later consumer of
+	// a commit (index pass, trigger pass, recorder, logger)
 	var got [8]vOp
 	n := 0
+	collect := func(r2 *Reader) {
+		for r2.Next() {
+			if r2.Type == Skip {
+				continue
+			}
+			vndAssert(n < K, "second pass: more operations than written")
+			got[n] = vOp{op: r2.Type, off: r2.Index(), str: r2.Bytes()}
+			switch len(got[n].str) {
+			case 2:
+				got[n].val = uint64(r2.Uint16())
+			case 4:
+				got[n].val = uint64(r2.Uint32())
+			case 8:
+				got[n].val = r2.Uint64()
+			}
+			n++
+		}
+	}
 	r2 := NewReader()
-	r2.Seek(b)
-	for r2.Next() {
-		if r2.Type == Skip {
-			continue
+	if seq {
+		r2.Seek(b)
+		collect(r2)
+	} else {
+		// all blocks that occur, in order of first occurrence
+		var seen [4]Chunk
+		ns := 0
+		for i := 0; i < K; i++ {
+			ci := Chunk(ops[i].off >> chunkShift)
+			dup := false
+			for j := 0; j < ns; j++ {
+				if seen[j] == ci {
+					dup = true
+				}
+			}
+			if !dup {
+				seen[ns] = ci
+				ns++
+				r2.Range(b, ci, collect)
+			}
 		}
-		vndAssert(n < K, "second pass: more operations than written")
-		got[n] = vOp{op: r2.Type, off: r2.Index(), str: r2.Bytes()}
-		switch len(got[n].str) {
-		case 2:
-			got[n].val = uint64(r2.Uint16())
-		case 4:
-			got[n].val = uint64(r2.Uint32())
-		case 8:
-			got[n].val = r2.Uint64()
-		}
-		n++
 	}
 	vndAssert(n == K, "second pass: operation count differs")
 
@@ -253,4 +278,42 @@ func VerifC05Swap() {
 		}
 	}
 	vndObserve("n", uint64(n))
+}
+
+// VerifC05Swap: after a first reader replaced merge deltas of one block by merged results, a
+// later reader sees, for every offset, the same sequence of operations with each such merge
+// turned into a put of the result.
+func VerifC05Swap() {
+	K := vndParam("K")
+	b := NewBuffer(8)
+	var ops [4]vOp
+	for i := 0; i < K; i++ {
+		ops[i] = vWriteOp(b, 1)
+		vndAssume(ops[i].op != Skip)
+	}
+	c := Chunk(vndU32("chunk"))
+	vSwapCheck(b, c, &ops, K, false)
+}
+
+// VerifC05SwapDecoded: the same for a buffer that went through Commit.WriteTo / ReadFrom (what a
+// replica or a restored log hands to the columns).
+func VerifC05SwapDecoded() {
+	K := vndParam("K")
+	b := NewBuffer(8)
+	b.Reset("col")
+	c := Chunk(vndParam("block"))
+	var ops [4]vOp
+	for i := 0; i < K; i++ {
+		ops[i] = vWriteOpOf(b, 1, true)
+		vndAssume(ops[i].op != Skip)
+		vndAssume(Chunk(ops[i].off>>chunkShift) == c)
+	}
+	src := Commit{ID: 7, Chunk: c, Updates: []*Buffer{b}}
+	w := &VBuf{}
+	_, err := src.WriteTo(w)
+	vndAssert(err == nil, "Commit.WriteTo failed")
+	var dst Commit
+	_, err = dst.ReadFrom(w)
+	vndAssert(err == nil && len(dst.Updates) == 1, "Commit.ReadFrom failed")
+	vSwapCheck(dst.Updates[0], c, &ops, K, true)
 }
